@@ -1378,6 +1378,138 @@ from twisted.internet import reactor''')],
 }
 
 
+# ---------------------------------------------------------------- rules added with seeded batch 6
+CH = PKG + "/db-schemas/channel-v1.sql"
+M("b6-affinity-side-numeric", ["C05", "C08", "C12", "C13"], CH,
+  ''' `opened` BOOLEAN, -- True after open(), False after close()
+ `side` VARCHAR,''',
+  ''' `opened` BOOLEAN, -- True after open(), False after close()
+ `side` NUMERIC,''',
+  ["R05.exact", "R08.exact", "R12.exact", "R13.exact"],
+  "a side string that looks like a number is stored as that number")
+M("b6-affinity-body-integer", ["C01", "C06"], CH,
+  " `body` VARCHAR,", " `body` BIGINT,", ["R01.exact", "R06.exact"])
+M("b6-open-tests-mailbox-truth", ["C08", "C17"], W,
+  """        if "mailbox" not in msg:
+            raise Error("open requires 'mailbox'")""",
+  """        if not msg.get("mailbox"):
+            raise Error("open requires 'mailbox'")""",
+  ["R08.present", "R17.present"], "the empty mailbox id is a valid id")
+M("b6-list-sorted-by-int", ["C17", "C18"], W,
+  """        nameplate_ids = sorted(self._app.get_nameplate_ids())""",
+  """        nameplate_ids = sorted(self._app.get_nameplate_ids(),
+                               key=lambda n: (len(n), int(n) if n.isdigit() else 0, n))""",
+  ["R17.convert", "R18.convert"])
+M("b6-add-guard-on-did-close", ["C17"], W,
+  """        if not self._mailbox:
+            raise Error("must open mailbox before adding")""",
+  """        if self._did_close:
+            raise Error("must open mailbox before adding")""",
+  ["R17.escape"], "add before open calls add_message on None")
+M("b6-prune-delete-loop-returns-early", ["C13"], S,
+  """            if self._usage_db:
+                self._summarize_mailbox_and_store(for_nameplate, side_rows,
+                                                  now, pruned=True)
+            modified = True""",
+  """            if self._usage_db:
+                self._summarize_mailbox_and_store(for_nameplate, side_rows,
+                                                  now, pruned=True)
+            modified = True
+            if not for_nameplate:
+                break""",
+  ["R13.all"])
+M("b6-prune-apps-first-100", ["C13", "C10"], S,
+  """        for app_id in sorted(self.get_all_apps()):""",
+  """        for app_id in sorted(self.get_all_apps())[:100]:""",
+  ["R13.all", "R13.apps", "R10.apps"])
+M("b6-upgrade-marker-file", ["C20"], D,
+  """        db.executescript(upgrader)
+        db.commit()
+        version = version+1""",
+  """        open(dbfile + ".upgrading", "x").close()
+        db.executescript(upgrader)
+        db.commit()
+        os.unlink(dbfile + ".upgrading")
+        version = version+1""",
+  ["R20.retry"], "a crash leaves the marker; the retry's exclusive create fails")
+M("b6-open-error-removes-journal", ["C19"], D,
+  """        raise DBError("Unable to create/open db file %s: %s" % (dbfile, e))""",
+  """        if os.path.exists(dbfile + "-journal"):
+            os.remove(dbfile + "-journal")
+        raise DBError("Unable to create/open db file %s: %s" % (dbfile, e))""",
+  ["R19.ro"], "a hot journal is the only way to recover the rejected file")
+
+CLASSIFY_OLD = """        new_mailboxes = set()
+        old_mailboxes = set()
+        for row in db.execute("SELECT * FROM `mailboxes` WHERE `app_id`=?",
+                              (self._app_id,)).fetchall():
+            mailbox_id = row["id"]
+            log.msg("  1: age=%s, old=%s, %s" %
+                    (now - row["updated"], now - old, mailbox_id))
+            if row["updated"] > old:
+                new_mailboxes.add(mailbox_id)
+            else:
+                old_mailboxes.add(mailbox_id)
+"""
+B("b6-classify-by-comprehensions", ["C12", "C13", "C10", "C08"], S, CLASSIFY_OLD,
+  """        mailbox_rows = db.execute("SELECT * FROM `mailboxes` WHERE `app_id`=?",
+                                  (self._app_id,)).fetchall()
+        new_mailboxes = {row["id"] for row in mailbox_rows if row["updated"] > old}
+        old_mailboxes = {row["id"] for row in mailbox_rows if not row["updated"] > old}
+""", "two filtering comprehensions with complementary conditions")
+M("b6-classify-comprehensions-gap", ["C13"], S, CLASSIFY_OLD,
+  """        mailbox_rows = db.execute("SELECT * FROM `mailboxes` WHERE `app_id`=?",
+                                  (self._app_id,)).fetchall()
+        new_mailboxes = {row["id"] for row in mailbox_rows if row["updated"] > old}
+        old_mailboxes = {row["id"] for row in mailbox_rows if row["updated"] < old}
+""", ["R13.exh"], "a mailbox whose stamp equals the cutoff lands in neither set, forever")
+M("b6-classify-comprehensions-inverted", ["C12"], S, CLASSIFY_OLD,
+  """        mailbox_rows = db.execute("SELECT * FROM `mailboxes` WHERE `app_id`=?",
+                                  (self._app_id,)).fetchall()
+        new_mailboxes = {row["id"] for row in mailbox_rows if not row["updated"] > old}
+        old_mailboxes = {row["id"] for row in mailbox_rows if row["updated"] > old}
+""", ["R12.cmp"], "the fresh mailboxes are the ones deleted")
+CLOSE_GUARD = """        if any([sr["opened"] for sr in side_rows]):
+            return
+
+        # nope. delete and summarize
+"""
+B("b6-close-guard-as-loop", ["C08", "C07", "C05"], S, CLOSE_GUARD,
+  """        for sr in side_rows:
+            if sr["opened"]:
+                return
+
+        # nope. delete and summarize
+""", "the loop spelling of the guard")
+M("b6-close-guard-loop-breaks", ["C08"], S, CLOSE_GUARD,
+  """        for sr in side_rows:
+            if sr["opened"]:
+                break
+
+        # nope. delete and summarize
+""", ["R08.guard"], "the loop is left, the deletion still happens")
+M("b6-close-guard-loop-inverted", ["C08"], S, CLOSE_GUARD,
+  """        for sr in side_rows:
+            if not sr["opened"]:
+                return
+
+        # nope. delete and summarize
+""", ["R08.guard"], "deletes exactly when every side is still open")
+WORK_OLD = """        for app_id in sorted(self.get_all_apps()):
+            log.msg(" app prune checking %r" % (app_id,))"""
+B("b6-app-sweep-worklist", ["C13", "C10", "C12", "C11", "C02"], S, WORK_OLD,
+  """        pending = sorted(self.get_all_apps())
+        while pending:
+            app_id = pending.pop(0)
+            log.msg(" app prune checking %r" % (app_id,))""", "a work list consumed to the end")
+M("b6-app-sweep-worklist-from-cache", ["C13", "C10"], S, WORK_OLD,
+  """        pending = sorted(self._apps)
+        while pending:
+            app_id = pending.pop(0)
+            log.msg(" app prune checking %r" % (app_id,))""", ["R13.apps", "R10.apps"],
+  "the work list is filled from the object cache")
+
+
 def apply_mutant(repo_root, m, base_texts=None):
     """-> overrides dict or None when the anchor text is gone"""
     edits = [(m["path"], m["old"], m["new"])] + EXTRA.get(m["id"], [])
